@@ -403,6 +403,13 @@ func TestVerifC24(t *testing.T) {
 	c24Flush()
 
 	nreq, nreqNontriv, nseq, npooled := 0, 0, 0, 0
+	tPhase := time.Now()
+	phaseSec := map[string]float64{}
+	lap := func(name string) {
+		phaseSec[name] += time.Since(tPhase).Seconds()
+		tPhase = time.Now()
+	}
+	lap("parsebyterange")
 	for _, kind := range kinds {
 		// (1) independent requests
 		srv := c24Start(t, kind, root, croot+"-"+kind)
@@ -422,6 +429,7 @@ func TestVerifC24(t *testing.T) {
 		}
 		srv.Close()
 		c24Flush()
+		lap("independent")
 
 		// (2) request sequences on one handler and one file (fresh handler per file size so
 		// that the cached file and its pooled readers start clean); each step is compared
@@ -448,6 +456,7 @@ func TestVerifC24(t *testing.T) {
 			cur.Close()
 		}
 		c24Flush()
+		lap("sequences")
 
 		// (3) several readers of the same file alive at once: the first step runs on K
 		// connections concurrently (held at the gate until all K handlers hold a reader), then
@@ -501,10 +510,16 @@ func TestVerifC24(t *testing.T) {
 			ps.Close()
 		}
 		c24Flush()
+		lap("pooled")
 	}
 	// (4) histories: the file is replaced on disk between requests
 	nhist, nhistReq := 0, 0
-	hkinds := []string{"osfs", "osfs-sameroot", "osfs-nocache", "dirfs"}
+	// dimensions: compressed siblings next to the originals / under a separate CompressRoot,
+	// caching handler / SkipCache, os files / fs.FS
+	hkinds := []string{"osfs-sameroot", "osfs-nocache", "dirfs"}
+	if !vfQuick() {
+		hkinds = append(hkinds, "osfs")
+	}
 	for _, kind := range hkinds {
 		hroot := filepath.Join(os.Getenv("VERIF_WORK"), "c24hist-"+kind)
 		if err := os.MkdirAll(hroot, 0o755); err != nil {
@@ -515,11 +530,12 @@ func TestVerifC24(t *testing.T) {
 			nhist++
 		}
 		c24Flush()
+		lap("histories")
 	}
 	nreq += nhistReq
 	nreqNontriv += nhistReq
 
-	vfStat(npbr+nrand+nreq, npbrNontriv+nreqNontriv, vfRec{"fs_histories": nhist, "fs_history_requests": nhistReq, "parsebyterange_vectors": npbr, "parsebyterange_random": nrand,
+	vfStat(npbr+nrand+nreq, npbrNontriv+nreqNontriv, vfRec{"phase_seconds": phaseSec, "fs_histories": nhist, "fs_history_requests": nhistReq, "parsebyterange_vectors": npbr, "parsebyterange_random": nrand,
 		"fs_requests": nreq, "fs_sequences": nseq, "fs_pooled_reader_sequences": npooled, "fs_kinds": strings.Join(kinds, ","), "file_sizes": len(contents)})
 	vfDone()
 }
